@@ -85,16 +85,61 @@ func (h *Hub) HandleShipHandshakeStateUpdate(ski string, state model.ShipState) 
 	existingDetails := service.ConnectionStateDetail()
 	existingState := existingDetails.State()
 	if existingState != pairingState || !errors.Is(existingDetails.Error(), state.Error) {
+		h.muxPairingUpdate.Lock()
 		service.SetConnectionStateDetail(pairingDetail)
+		sequence := h.nextPairingUpdateSequence(ski)
+		h.muxPairingUpdate.Unlock()
 
 		// always send a delayed update, as the processing of the new state has to be done
 		// and the SHIP message has to be received by the other service before
 		// acting upon the new state is safe
 		go func() {
 			<-time.After(time.Millisecond * 500)
+			h.muxPairingUpdate.Lock()
+			defer h.muxPairingUpdate.Unlock()
+
+			// the delayed updates are not woken up in any specific order, an update that
+			// was overtaken by a more recent one must not be reported any more
+			if !h.markPairingUpdateReported(ski, sequence) {
+				return
+			}
+
 			h.hubReader.ServicePairingDetailUpdate(ski, pairingDetail)
 		}()
 	}
+}
+
+// provide the sequence number for a new pairing detail update of a SKI
+//
+// muxPairingUpdate has to be locked
+func (h *Hub) nextPairingUpdateSequence(ski string) uint64 {
+	h.pairingUpdateCreated[ski]++
+
+	return h.pairingUpdateCreated[ski]
+}
+
+// mark the pairing detail update with the given sequence number as being reported
+// returns false if a more recent update was already reported
+//
+// muxPairingUpdate has to be locked
+func (h *Hub) markPairingUpdateReported(ski string, sequence uint64) bool {
+	if sequence < h.pairingUpdateReported[ski] {
+		return false
+	}
+
+	h.pairingUpdateReported[ski] = sequence
+
+	return true
+}
+
+// report a pairing detail update right away, any older update still being delayed is dropped
+func (h *Hub) reportPairingDetailUpdate(ski string, detail *api.ConnectionStateDetail) {
+	h.muxPairingUpdate.Lock()
+	defer h.muxPairingUpdate.Unlock()
+
+	h.markPairingUpdateReported(ski, h.nextPairingUpdateSequence(ski))
+
+	h.hubReader.ServicePairingDetailUpdate(ski, detail)
 }
 
 // report an approved handshake by a remote device
